@@ -129,9 +129,14 @@ def _big_stack():
     try: resource.setrlimit(resource.RLIMIT_STACK, (hard, hard))
     except (ValueError, OSError): pass
 
-def run_model(case_lines):
-    p = subprocess.run([os.path.join(EXTRACT, "omm")], input=("\n".join(case_lines) + "\n").encode(),
-                       stdout=subprocess.PIPE, stderr=subprocess.PIPE, preexec_fn=_big_stack)
+def run_model(case_lines, timeout=None):
+    """Runs the extracted model over the case lines.  With a timeout (seconds) a model that does not answer in time
+    raises RuntimeError("model driver timeout ...") instead of hanging the check."""
+    try:
+        p = subprocess.run([os.path.join(EXTRACT, "omm")], input=("\n".join(case_lines) + "\n").encode(),
+                           stdout=subprocess.PIPE, stderr=subprocess.PIPE, preexec_fn=_big_stack, timeout=timeout)
+    except subprocess.TimeoutExpired:
+        raise RuntimeError("model driver timeout after %s s on %d case lines (first: %s)" % (timeout, len(case_lines), case_lines[0][:80] if case_lines else ""))
     if p.returncode != 0:
         raise RuntimeError("model driver failed: " + p.stderr.decode()[-2000:])
     out = p.stdout.decode().split("\n")
